@@ -183,9 +183,13 @@ def build_hand(r: Spec) -> Any:
         elif lt == "categorical_logits":
             l = CategoricalLayer(Scope([v]), K, num_categories=k, logits=build_parameter(ispec, (K, k)))
         elif lt == "gaussian":
+            kw: dict[str, Any] = {}
+            if ispec.get("log_partition") is not None:
+                # an explicitly unnormalised Gaussian: a learnable log-partition parameter
+                kw["log_partition"] = build_parameter(ispec["log_partition"], (K,))
             l = GaussianLayer(
                 Scope([v]), K, mean=build_parameter(ispec, (K,)),
-                stddev=build_parameter(ispec["stddev"], (K,)),
+                stddev=build_parameter(ispec["stddev"], (K,)), **kw,
             )
         else:
             raise HarnessError(f"unknown hand input layer {lt}")
